@@ -345,7 +345,7 @@ func Check() *common.Check {
 		Level: "exploration",
 		// every case is recorded before it runs: a fatal error or a hang of the worker is attributed to it
 		CrashSafe: true,
-		Rule: "inputs: every single-token deletion, duplication and replacement (13 tokens, one of every lexical kind) of a spread of 300 (quick) / 2000 (thorough) sqlgen statements; all fragment strings of length <=3 (quick) / <=4 (thorough) over lexgen's 37-fragment lexical alphabet (bad escapes, unterminated literals, lone punctuation, control bytes); " +
+		Rule: "inputs: every single-token deletion, duplication and replacement (13 tokens, one of every lexical kind) of a spread of 300 (quick) / 2000 (thorough) sqlgen statements; every number position of every clause-option / DML / DDL statement x 10 number forms and magnitudes (0, 2^63-1, 2^63, 20 digits, fraction, exponent, sign, leading zeros, hex, overflowing exponent); all fragment strings of length <=3 (quick) / <=4 (thorough) over lexgen's 37-fragment lexical alphabet (bad escapes, unterminated literals, lone punctuation, control bytes); " +
 			"nesting beyond the depth limit in 6 constructs; an input one byte over the size limit; each through 10 failing-capable entry points; every input the parser (not the tokenizer) rejects is also run as a history: rejected input, a statement exactly at the nesting limit, the rejected input again - on one Parser object, and with five other calls in between (ParseContext under a context done at entry / with a passed deadline / cancelled mid-statement, a recovering parse, a parse without positions) and (first two) inside one recovery call. every input the tokenizer rejects is also run as a lexical history: one Tokenizer object (held, or handed on by the pool) tokenizes one of 5 primers through Tokenize / TokenizeContext and then the input, bare and behind two paddings, through both. distinct = distinct input text; non-trivial = at least one entry point rejects the input",
 		Assume: []string{"stage of a failure = whether tokenizer.Tokenize alone rejects the input", "message template = message with quoted/numeric parts removed, first five words before the first colon"},
 		Enumerate: func(e *common.Enum) {
@@ -389,6 +389,25 @@ func Check() *common.Check {
 					}
 				}
 			}
+			// every position that holds a number, in every clause-option / DML / DDL statement (not a spread): counts, sizes,
+			// offsets and frame bounds are converted by the clause that owns them - each number form and magnitude there
+			numForms := []string{"0", "9223372036854775807", "9223372036854775808", "99999999999999999999", "1.5", "1e3", "-1", "007", "0x10", "1e400"}
+			numberPos := func(name string, st sqlgen.S) {
+				for k, t := range st.Toks {
+					if t.S == "" || t.S[0] < '0' || t.S[0] > '9' {
+						continue
+					}
+					for _, f := range numForms {
+						rep := append([]sqlgen.Tok{}, st.Toks...)
+						rep[k] = sqlgen.Tok{S: f}
+						sql := sqlgen.Render(rep, sqlgen.LNatural)
+						e.Do("number|"+sql, func(c *common.Ctx) { checkInput(c, sql, "number") })
+					}
+				}
+			}
+			sqlgen.ClauseOptions(numberPos)
+			sqlgen.DMLCases(numberPos)
+			sqlgen.DDLCases(numberPos)
 			L := 3
 			if e.Thorough() {
 				L = 4
